@@ -134,6 +134,51 @@ func BuildMulti(g string, s []ro.Observable[any]) (ro.Observable[any], error) {
 	return nil, fmt.Errorf("multi catalogue: no constructor for %q", g)
 }
 
+// BuildMultiOp returns the OPERATOR VALUE of the operator forms (the function that is applied to the first source), built once
+// from the remaining sources; ok = false for creation forms.
+func BuildMultiOp(g string, rest []ro.Observable[any]) (func(ro.Observable[any]) ro.Observable[any], bool) {
+	wrap := func(f func(ro.Observable[any]) ro.Observable[any]) (func(ro.Observable[any]) ro.Observable[any], bool) {
+		return f, true
+	}
+	switch g {
+	case "MergeWith":
+		return wrap(ro.MergeWith(rest...))
+	case "MergeWith1":
+		return wrap(ro.MergeWith1(rest[0]))
+	case "MergeWith2":
+		return wrap(ro.MergeWith2(rest[0], rest[1]))
+	case "RaceWith":
+		return wrap(ro.RaceWith(rest...))
+	case "TakeUntil":
+		return wrap(ro.TakeUntil[any](rest[0]))
+	case "SkipUntil":
+		return wrap(ro.SkipUntil[any](rest[0]))
+	case "SampleWhen":
+		return wrap(ro.SampleWhen[any](rest[0]))
+	case "ThrottleWhen":
+		return wrap(ro.ThrottleWhen[any](rest[0]))
+	case "CombineLatestWith":
+		op := ro.CombineLatestWith[any](rest[0])
+		return wrap(func(a ro.Observable[any]) ro.Observable[any] { return tupleAny(op(a)) })
+	case "CombineLatestWith1":
+		op := ro.CombineLatestWith1[any](rest[0])
+		return wrap(func(a ro.Observable[any]) ro.Observable[any] { return tupleAny(op(a)) })
+	case "ZipWith":
+		op := ro.ZipWith[any](rest[0])
+		return wrap(func(a ro.Observable[any]) ro.Observable[any] { return tupleAny(op(a)) })
+	case "ZipWith1":
+		op := ro.ZipWith1[any](rest[0])
+		return wrap(func(a ro.Observable[any]) ro.Observable[any] { return tupleAny(op(a)) })
+	case "BufferWhen":
+		op := ro.BufferWhen[any](rest[0])
+		return wrap(func(a ro.Observable[any]) ro.Observable[any] { return tupleAny(op(a)) })
+	case "WindowWhen":
+		op := ro.WindowWhen[any](rest[0])
+		return wrap(func(a ro.Observable[any]) ro.Observable[any] { return tupleAny(op(a)) })
+	}
+	return nil, false
+}
+
 func init() {
 	cat.ExtraCanon = func(v any) (string, bool) {
 		switch x := v.(type) {
@@ -161,21 +206,46 @@ func ReplayMulti(idx int, c *MCase, mode string, out *[]Mismatch) {
 
 func replayMulti(idx int, c *MCase, mode string, out *[]Mismatch) {
 	name := fmt.Sprintf("%s/%d", c.M.G, c.M.K)
+	add0 := func(step int, class, detail string) {
+		if mode == "multi-apply" {
+			class = "reuse-" + class
+		}
+		*out = append(*out, Mismatch{Case: idx, Chain: name, Mode: mode, Step: step, Class: class, Detail: detail})
+	}
 	add := func(step int, class, detail string) {
 		if c.Panic > 0 && !(class == "torn" && step == len(c.Steps)-1 && c.Steps[step].Exp.Closed) && class != "hang" {
 			// a panicking teardown may legitimately surface as an Error when the OPERATOR disposes a source (e.g. Race releasing the
 			// losers); with such a source only the C03 clause is judged: at the end every teardown has run exactly once
 			return
 		}
-		*out = append(*out, Mismatch{Case: idx, Chain: name, Mode: mode, Step: step, Class: class, Detail: detail})
+		add0(step, class, detail)
 	}
 	ctls := make([]*Ctl, c.M.K)
 	srcs := make([]ro.Observable[any], c.M.K)
 	for i := range ctls {
 		ctls[i] = &Ctl{PanicOnTeardown: c.Panic == i+1}
-		srcs[i] = ctls[i].Observable(mode, nil)
+		srcs[i] = ctls[i].Observable(lo.Ternary(mode == "multi-apply", "ctl-unsafe", mode), nil)
 	}
-	o, err := BuildMulti(c.M.G, srcs)
+	var o ro.Observable[any]
+	var err error
+	if mode == "multi-apply" {
+		// C12: ONE operator value applied to the real first source AND to a decoy source; the pipeline over the real source must not be
+		// influenced by the later application
+		opv, ok := BuildMultiOp(c.M.G, srcs[1:])
+		if !ok {
+			return
+		}
+		decoy := &Ctl{}
+		o = opv(srcs[0])
+		_ = opv(decoy.Observable("ctl-unsafe", nil))
+		defer func() {
+			if s, _ := decoy.counts(); s != 0 {
+				add(len(c.Steps)-1, "sub", "the decoy source of another application of the same operator value was subscribed")
+			}
+		}()
+	} else {
+		o, err = BuildMulti(c.M.G, srcs)
+	}
 	if err != nil {
 		add(0, "catalogue", err.Error())
 		return
